@@ -214,6 +214,12 @@ class KeyedList(Generic[ItemType, KeyType], MutableSequence, KeyedBase):  # pyli
         self._list.extend(staged.values())
         self._dict.update(staged)
 
+    def clear(self):
+        # The mixin pops items one by one (calling the key function each
+        # time); clearing both structures at once cannot stop half-way.
+        self._list.clear()
+        self._dict.clear()
+
     def __contains__(self, value):
         try:
             if value in self._dict:
